@@ -51,14 +51,14 @@ pub fn run_at(w: &[&str]) -> String {
     if w.len() != 2 { return "bad-op".into() }
     let pos = match w[0].parse::<usize>() { Ok(p) => p, Err(_) => return "bad-op".into() };
     let input = match unhex(w[1]) { Some(b) => b, None => return "bad-op".into() };
-    if pos > input.len() { return "bad-op".into() }
+    if pos > input.len() + 64 { return "bad-op".into() }          // a position beyond the end is legal (`set_position` does not check)
     let lim = 64 * input.len() + 4096;
     let mut a = Limited { buf: String::new(), limit: lim, overflow: false };
     let mut d = minicbor::Decoder::new(&input);
     d.set_position(pos);
     let ra = write!(a, "{}", d.tokens());
     let mut b = Limited { buf: String::new(), limit: lim, overflow: false };
-    let rb = write!(b, "{}", minicbor::display(&input[pos ..]));
+    let rb = write!(b, "{}", minicbor::display(input.get(pos ..).unwrap_or(&[])));
     if a.overflow || b.overflow { return "overflow".into() }
     if ra.is_err() || rb.is_err() { return "fmt-error".into() }
     format!("{} | {}", hex(a.buf.as_bytes()), hex(b.buf.as_bytes()))
